@@ -30,9 +30,15 @@ type Case struct {
 	B2     bool   `json:"b2"`
 	Reads  []int  `json:"reads"`
 	Origin string `json:"origin"`
+	// Src: sizes of the pieces in which the stream reaches the Reader (nil: all at once). Fault k > 0: the
+	// source read that would start at offset k-1 fails once with a transient error (read deadline) and the
+	// data continues afterwards; the verdict clause is unchanged (Close == nil only on the canonical decoding).
+	Src   []int `json:"src,omitempty"`
+	Fault int   `json:"fault,omitempty"`
 }
 
 type outcome struct {
+	faulted  bool // the injected transient source error was delivered
 	accepted bool
 	closeOK  bool
 	readErr  error
@@ -44,7 +50,12 @@ func run(c Case) (sig, msg string, o outcome) {
 		c.Reads = []int{512}
 	}
 	psig, pmsg := harness.Catch(func() {
-		r, err := lzhuf.NewReader(bytes.NewReader(c.Stream), c.B2)
+		src := gen.NewSource(c.Stream, c.Src)
+		if c.Fault > 0 {
+			src.FaultAt = c.Fault - 1
+		}
+		defer func() { o.faulted = src.Faulted() }()
+		r, err := lzhuf.NewReader(src, c.B2)
 		if err != nil {
 			if r != nil {
 				// constructor returns (reader, err) for a short size field; nothing to read
@@ -201,6 +212,9 @@ func validStream(t *rapid.T, b2 bool) ([]byte, string, int) {
 func genCase(t *rapid.T) Case {
 	c := Case{B2: rapid.Bool().Draw(t, "b2"), Reads: gen.Schedule(t, "reads")}
 	kind := rapid.IntRange(0, 9).Draw(t, "kind")
+	if kind < 2 {
+		c.Src = gen.SourceSchedule(t, "src")
+	}
 	if kind == 0 {
 		c.Stream = rapid.SliceOfN(rapid.Byte(), 0, 4096).Draw(t, "random")
 		c.Origin = "random"
@@ -292,6 +306,10 @@ func genCase(t *rapid.T) Case {
 		c.Origin = "trailing-garbage:" + origin
 	}
 	c.Stream = z
+	c.Src = gen.SourceSchedule(t, "src")
+	if len(z) > 0 && rapid.IntRange(0, 3).Draw(t, "fault") == 0 {
+		c.Fault = 1 + rapid.IntRange(0, len(z)-1).Draw(t, "fault_at")
+	}
 	return c
 }
 
@@ -303,7 +321,7 @@ func account(c Case, o outcome) {
 	}
 	harness.Label("kind:" + kind)
 	if o.accepted {
-		harness.NonTrivial(harness.Hash(c.Stream, c.B2, c.Reads))
+		harness.NonTrivial(harness.Hash(c.Stream, c.B2, c.Reads, c.Src, c.Fault))
 		switch {
 		case o.closeOK:
 			harness.Label("verdict:close-ok")
@@ -314,6 +332,15 @@ func account(c Case, o outcome) {
 		}
 	} else {
 		harness.Label("verdict:constructor-error")
+	}
+	if len(c.Src) > 0 {
+		harness.Label("source:delivered-in-pieces")
+	}
+	if o.faulted {
+		harness.Label("source:transient-read-error-delivered")
+		if o.closeOK {
+			harness.Label("source:transient-read-error-delivered+close-ok")
+		}
 	}
 	if harness.WantSample() && o.accepted && kind != "valid" {
 		s := c.Stream
